@@ -969,7 +969,18 @@ func c45ScenarioWiring(bud *c45Budget, cur **vsched.Enum) {
 		for _, mode := range modes {
 			for _, in := range inputs {
 				set, ok := c45Model(prog, in, nil)
-				for k := 1; k <= 3*len(prog)+1; k++ { // composite stages have up to 3 actors; k beyond the sink is skipped below
+				nActors := 2 // source + sink
+				for _, kd := range prog {
+					switch kd {
+					case c45BatchBufFlatten:
+						nActors += 3
+					case c45BatchFlatten, c45BatchSum:
+						nActors += 2
+					default:
+						nActors++
+					}
+				}
+				for k := 1; k < nActors; k++ {
 					caseStr := fmt.Sprintf("Of%s > %s | %s | stageWire of stage #%d held back", c45Str(in), c45ProgStr(prog), c45FusionName[mode], k)
 					if replay != nil {
 						if replay.skip(scenario, caseStr) {
@@ -991,8 +1002,8 @@ func c45ScenarioWiring(bud *c45Budget, cur **vsched.Enum) {
 					}
 					bud.begin(caseStr)
 					o, nst, delayed := c45RunCaseDelayed(prog, mode, in, k)
-					if k >= nst {
-						continue // no such stage (not a case)
+					if nst != nActors {
+						panic(fmt.Sprintf("c45ScenarioWiring: %d stage actors expected, pipeline has %d", nActors, nst))
 					}
 					sig, detail := c45Judge(prog, in, set, o)
 					if replay != nil {
